@@ -27,7 +27,8 @@ def eagerType {α β : Type} (ty : α → β) (content : List (String × Col α)
 def lazyType {α β : Type} (ty : α → β) (content : List (String × Col α)) : List (String × Col β) :=
   processDigi (mapCol.mapFields ty content)
 
-/-- `Bes3SymMatrixArrayFactory`: content is `raw.reshape(-1, n, n)`, form is `NumpyForm(inner_shape=[n, n])` -/
+/-- `Bes3SymMatrixArrayFactory`: content is the raw data regrouped as `n × n` blocks (nested `RegularArray`s of size n over the flat
+buffer, i.e. shape `(-1, n, n)`), the form announces the regular dimensions `[n, n]` (nested `RegularForm`s) -/
 def symContentShape (rawLen n : Nat) : List Nat := [rawLen / (n * n), n, n]
 def symFormInner (n : Nat) : List Nat := [n, n]
 
